@@ -111,7 +111,21 @@ func replayInputs(path string) []string {
 func (rn *runner) replay(path string) {
 	for _, in := range replayInputs(path) {
 		toks := strings.Fields(in)
-		if len(toks) < 3 {
+		if len(toks) < 2 || len(toks) < 3 && toks[0] != "paths" {
+			continue
+		}
+		if toks[0] == "paths" {
+			rn.paths()
+			continue
+		}
+		if toks[0] == "slot" {
+			_, byDesc := rn.slotTypes()
+			if rt, ok := byDesc[toks[1]]; ok {
+				s := &tokStream{t: toks[2:], defs: map[int]*rnode{}}
+				rn.slotCase(toks[1], rt, s.value(), "stream:replay")
+			} else {
+				fmt.Fprintln(os.Stderr, "replay: unknown slot type", toks[1])
+			}
 			continue
 		}
 		target := rn.u.structs[toks[1]]
